@@ -385,7 +385,7 @@ func c02(args []string) int {
 			}
 		}
 		out.Put(map[string]interface{}{"kind": "hist", "nb": nb, "ops": ops, "cells": cells, "probes": probes, "ph": phobs, "panics": panics,
-			"foreign": foreign, "end_diff_bytes": endDiff})
+			"foreign": foreign, "end_diff_bytes": endDiff, "hserial": hserial})
 		// placeholders keep their trampolines: restore them for the next history by re-reading the pristine image is not possible
 		// through goom, so the next history starts from the observed placeholder state (the model is told via "ph0")
 	}
